@@ -29,7 +29,7 @@ def generate(seed, tier):
     for _ in range(g.int(1, 2)):
         p = S.add_file(g, d, big if g.chance(0.3) else 5000)
         total += d['fs'][p]['content']['size']
-        ops.append(S.timeouts(g, {'op': 'pull', 'path': p, 'dest': g.pick(['bytesio', 'file']), 'cb': g.pick([None, 'count', 'raise'])}))
+        ops.append(S.timeouts(g, {'op': 'pull', 'path': p, 'dest': g.pick(['bytesio', 'file']), 'cb': g.pick([None, 'count', 'raise', 'raise_base'])}))
     if g.chance(0.15):
         # the destination fails in the middle of a multi-record pull; the next pull on the same connection must be unaffected
         p0 = S.add_file(g, d, 20000)
